@@ -87,6 +87,16 @@ BASE = {
     "L": {"type": "array", "items": {"$ref": REF + "R"}},
     "U": {"anyOf": [{"$ref": REF + "R"}, {"type": "string"}]},
     "NE": {"enum": ["p", "q", None]},
+    # referenced components that carry their OWN default / description / example (incl. falsy defaults): a property that
+    # reaches them through $ref or a single-reference wrapper takes the default of the referring schema only
+    "Colour": {"type": "string", "enum": ["green", "red"], "default": "green", "description": "a colour"},
+    "Currency": {"type": "string", "default": "EUR", "description": "ISO code", "example": "EUR"},
+    "Count": {"type": "integer", "default": 0},
+    "Flag": {"type": "boolean", "default": False, "example": True},
+    "Blank": {"type": "string", "default": ""},
+    "Level": {"type": "integer", "enum": [0, 1, 2], "default": 0},
+    "When": {"type": "string", "format": "date", "default": "2020-01-01"},
+    "NColour": {"type": "string", "enum": ["blue", None], "default": "blue"},
 }
 BASE_ORDER = list(BASE)
 PNAMES = ["p", "my_prop", "Val", "a-b", "x1", "class", "9lives", "camelCase"]
@@ -225,6 +235,18 @@ class SGen:
                 s["default"] = "whatever"
             elif target == "S":
                 s["default"] = "sdef"
+            elif target == "Colour":
+                s["default"] = rng.choice(["green", "red"] if nl else ["green", "red", "nope"])
+            elif target == "Currency":
+                s["default"] = rng.choice(["USD", ""])
+            elif target == "Count":
+                s["default"] = rng.choice([5, 0])
+            elif target == "Flag":
+                s["default"] = rng.choice([True, False])
+            elif target == "Level":
+                s["default"] = rng.choice([1, 0] if nl else [1, 0, 7])
+            elif target == "NColour":
+                s["default"] = "blue"
         return s
 
     def union(self, d):
